@@ -591,12 +591,32 @@ def nearby_paths_family(W):
     return res
 
 
+def cancel_family(W, base):
+    """The request's context is cancelled at one gate of a check that refreshes (Envoy's ext_authz timeout fired): whatever was already
+    redeemed at the provider is either stored or the session is ended - never left holding what the provider has superseded."""
+    out = []
+    for sc in base:
+        idx = [j for j, st in enumerate(sc["steps"]) if st.get("op") == "check" and st.get("kind") == "app"]
+        if len(idx) < 2:
+            continue
+        j = idx[1] if sc["steps"][idx[0]].get("cookie") == "none" else idx[0]
+        for gate in range(0, 5):
+            v = json.loads(json.dumps(sc))
+            v["id"] = "%s/cancel-g%d" % (sc["id"], gate)
+            v["steps"][j]["dirs"] = {str(gate): {"cancel": True}}
+            for st in v["steps"]:
+                st.pop("expect", None)
+            out.append(v)
+    return out
+
+
 def hammer_family(W):
     """Requests carrying one session cookie hammered truly in parallel (applications requests and logouts on a pending / an
     authenticated session), with a clock that is slow to read now and then."""
-    rounds = 3000 if W.tier == "thorough" else 240
-    return [{"id": "hammer/%s" % st, "cfg": {"filters": [dict(F1, store=st)]}, "steps": [{"op": "hammer", "f": "f1", "d": rounds, "ans": dict(ANS)}], "tags": ["hammer"]}
-            for st in ("memory", "redis")]
+    # (240 rounds per scenario: the recorder's tables of symbols and secrets are per scenario and every answer is scanned against them)
+    reps = 10 if W.tier == "thorough" else 1
+    return [{"id": "hammer/%s/%d" % (st, r), "cfg": {"filters": [dict(F1, store=st)]}, "steps": [{"op": "hammer", "f": "f1", "d": 240, "ans": dict(ANS)}], "tags": ["hammer"]}
+            for st in ("memory", "redis") for r in range(reps)]
 
 
 def decoy_family(W):
@@ -1009,6 +1029,7 @@ def c11(W, replay=None):
         ms = sample(W, [m for m in ms if any(s.get("ans") == "badToken" for s in m["steps"])], 1000 if W.tier == "thorough" else 80)
         scen += [conv(m, "c11/race/%d" % i, 1, store=("memory", "redis")[i % 2], probes=finish_all(m) + [PROBE_APP]) for i, m in enumerate(ms)]
         scen += replica_family(W) + env_std(W) + debug_family(W)
+        scen += cancel_family(W, [x for x in scen if x["id"].startswith(("c11/rotate/n1", "c11/noRotate/n1", "c11/omitId/n1", "c11/badSig/n1"))])
         # every single fault position on the refresh path (store calls, provider, key lookup; Redis: single commands)
         ms = export(W, "c11-faults", Prepared='"expired"', Target=1, MaxApps=1, MaxFaults=2 if W.tier == "thorough" else 1, Checks="{1,2,3,4}", MaxSid=3, MaxTok=4)
         for stname in ("memory", "redis"):
